@@ -38,7 +38,7 @@ func (ex *Exec) unop(s *State, x *ssa.UnOp, v Value) (Value, error) {
 	case token.XOR:
 		return c.Not(v.(*Term)), nil
 	case token.ARROW:
-		return nil, unsupported("channel receive")
+		return ex.chanRecv(s, v, x.X.Type().Underlying().(*types.Chan).Elem(), x.CommaOk)
 	}
 	return nil, unsupported("unop %s", x.Op)
 }
